@@ -336,6 +336,9 @@ func genStreamSpec(prop string, seed uint64, o streamGenOpts) *spec.RunSpec {
 		rd.ReadDelayUs = int64(sr.Pick(2500000, 5000000, 9000000))
 		rd.ReadBufs = []int{65536}
 		s.Profile += "+slow-reader"
+		// thousands of segments of ~100 wire bytes each: on a throttled link they would queue
+		// ahead of other sessions' handshakes for longer than the client's 10 s SOCKS timeout
+		s.Net.BytesPerSec = 0
 		if s.Liveness != nil {
 			s.Liveness.BoundUs += 60000000
 		}
